@@ -268,6 +268,7 @@ class FlowEmit:
                 return "(KOps.f%s %s %s)" % (name, t, a), "F"
             if name == "is_infinite": return "(KOps.isInf %s)" % t, "B"
             if name == "is_finite": return "(KOps.isFinite %s)" % t, "B"
+            if name == "is_nan": return "(KOps.isNan %s)" % t, "B"
         if ty == "N":
             if name in ("min", "max") and len(args) == 1:
                 a, _ = self.ex(args[0], env); return "(%s %s %s)" % (name, t, a), "N"
